@@ -622,6 +622,18 @@ def World.exec (w : World) (op : String) (args : List String) : World :=
       match (if op == "bbpacked" then readIntPacked enc else readInt mx enc) with
       | .fail _ => w.say s!"bb readfail {enc.length}"
       | .ok got rest => w.say s!"bb ok {enc.length} {got} {enc.length - rest.length}"
+    | "bbcut" =>
+      -- a value read back from a buffer that is `cut` bits too short: result, value, bits consumed on success; the cursor stays in range
+      let kind := n 0
+      let v := n 1 % 4294967296
+      let mx := n 2 % 4294967296
+      if kind == 0 && v ≥ mx then w.say "bb fail" else
+      let enc := if kind == 0 then writeInt v mx else if kind == 1 then writeIntWrapped v mx else writeIntPacked v
+      let cut := n 4 % (enc.length + 1)
+      let short := enc.take (enc.length - cut)
+      match (if kind == 2 then readIntPacked short else readInt mx short) with
+      | .fail _ => w.say "bb cut 0 0 0 1"
+      | .ok got rest => w.say s!"bb cut 1 {got} {short.length - rest.length} 1"
     | "nodes" => w.say s!"ret {w.liveNodes}"
     | "hex" =>
       match w.getEp (n 0) with
